@@ -17,6 +17,7 @@ pub struct Proxy {
     pub addr: SocketAddr,
     blocked: Arc<AtomicBool>,
     frozen: Arc<AtomicBool>,
+    frozen_fwd: Arc<AtomicBool>,
     throttle: Arc<AtomicU64>,
     links: Arc<Mutex<Vec<JoinHandle<()>>>>,
     pub accepted: Arc<AtomicU64>,
@@ -29,13 +30,14 @@ async fn thaw(frozen: &AtomicBool) {
     }
 }
 
-async fn pipe(mut a: TcpStream, mut b: TcpStream, frozen: Arc<AtomicBool>, throttle: Arc<AtomicU64>) {
+async fn pipe(mut a: TcpStream, mut b: TcpStream, frozen: Arc<AtomicBool>, throttle: Arc<AtomicU64>, frozen_fwd: Arc<AtomicBool>) {
     let (mut ar, mut aw) = a.split();
     let (mut br, mut bw) = b.split();
     let f1 = async {
         let mut buf = vec![0u8; 16384];
         loop {
             thaw(&frozen).await;
+            thaw(&frozen_fwd).await; // dialer -> listener direction only
             // throttle: at most `lim` bytes per 2 ms (a slow link: data arrives piecemeal at the receiver)
             let lim = throttle.load(Ordering::Relaxed) as usize;
             let cap = if lim > 0 { lim.min(16384) } else { 16384 };
@@ -84,6 +86,8 @@ impl Proxy {
         let f2 = frozen.clone();
         let throttle = Arc::new(AtomicU64::new(0));
         let t2 = throttle.clone();
+        let frozen_fwd = Arc::new(AtomicBool::new(false));
+        let ff2 = frozen_fwd.clone();
         let links: Arc<Mutex<Vec<JoinHandle<()>>>> = Arc::new(Mutex::new(Vec::new()));
         let accepted = Arc::new(AtomicU64::new(0));
         let (b2, l2, a2) = (blocked.clone(), links.clone(), accepted.clone());
@@ -101,13 +105,13 @@ impl Proxy {
                 };
                 let _ = out.set_nodelay(true);
                 a2.fetch_add(1, Ordering::SeqCst);
-                let h = tokio::spawn(pipe(sock, out, f2.clone(), t2.clone()));
+                let h = tokio::spawn(pipe(sock, out, f2.clone(), t2.clone(), ff2.clone()));
                 let mut g = l2.lock().unwrap();
                 g.retain(|h| !h.is_finished());
                 g.push(h);
             }
         });
-        Proxy { addr, blocked, frozen, throttle, links, accepted, acceptor }
+        Proxy { addr, blocked, frozen, frozen_fwd, throttle, links, accepted, acceptor }
     }
 
     /// Drop every forwarded connection now.
@@ -127,6 +131,11 @@ impl Proxy {
 
     pub fn block(&self, on: bool) {
         self.blocked.store(on, Ordering::SeqCst);
+    }
+
+    /// stop / resume forwarding from the dialing side to the listening side only
+    pub fn freeze_fwd(&self, on: bool) {
+        self.frozen_fwd.store(on, Ordering::SeqCst);
     }
 
     /// forward at most `bytes` per 2 ms in each direction (0 = unlimited)
@@ -244,6 +253,15 @@ impl Link {
         match self {
             Link::Tcp(p) => p.block(on),
             Link::Udp(p) => p.block(on),
+        }
+    }
+    pub fn freeze_fwd(&self, on: bool) -> bool {
+        match self {
+            Link::Tcp(p) => {
+                p.freeze_fwd(on);
+                true
+            }
+            Link::Udp(_) => false,
         }
     }
     pub fn throttle(&self, bytes: u64) -> bool {
